@@ -115,6 +115,38 @@ def install(rt: Runtime) -> Runtime:
         vals = v.vals if isinstance(v, Vec) else v
         return sum(1 if x is True else (0 if x is False else x) for x in vals)
 
+    def np_sort(v, kind=None):
+        vals = v.vals if isinstance(v, Vec) else list(v)
+        return Vec(sorted(vals))
+
+    def np_cumsum(v):
+        vals = v.vals if isinstance(v, Vec) else list(v)
+        out, tot = [], 0
+        for x in vals:
+            tot = tot + x
+            out.append(tot)
+        return Vec(out)
+
+    def np_concatenate(parts):
+        out = []
+        for p_ in parts:
+            out.extend(p_.vals if isinstance(p_, Vec) else list(p_))
+        return Vec(out)
+
+    def np_vdot(a, b):
+        av = a.vals if isinstance(a, Vec) else list(a)
+        bv = b.vals if isinstance(b, Vec) else list(b)
+        if len(av) != len(bv):
+            raise Unsupported("vdot length mismatch")
+        tot = 0
+        for x, y in zip(av, bv):
+            tot = tot + x * y
+        return tot
+
+    ex["numpy.sort"] = fn(np_sort)
+    ex["numpy.cumsum"] = fn(np_cumsum)
+    ex["numpy.concatenate"] = fn(np_concatenate)
+    ex["numpy.vdot"] = fn(np_vdot)
     for mod in ("numpy",):
         ex[f"{mod}.full"] = fn(np_full)
         ex[f"{mod}.zeros"] = fn(np_zeros)
